@@ -29,7 +29,7 @@ Tolerance (fixed): |got - exact| <= 1e-12 + 1e-9 * |exact|.  The measuring instr
 against TLC on every initial state (exact equality on the integer input, else machinery failure).
 "raises" and "returns nan where the operation is defined" are reported under keys of their own.
 """
-import sys, os, math, time, itertools
+import math, time
 from harness.core import Check, tier_seed, assert_repo, main_guard
 from harness.tlc import run_tlc
 
@@ -344,7 +344,7 @@ def replay_defs_state(mods, hdr, st, idx, res):
             res.violation("support:wrong-value", {"samples": s_i, "weights": w_i, "expected_index": supp, "got": gi},
                           "support_index(%s): spec %s, mystic %s" % (w_i, supp, gi))
     res.case("definitions", nontriv)
-    if len(res.samples) < 1 and nontriv and n >= 3:
+    if nontriv and n >= 3 and not any(x.get("clause") == "definitions" for x in res.samples):
         res.samples.append({"clause": "definitions", "samples": s_i, "weights": w_i,
                             "spec": {k: obs[k] for k in ("mean", "var", "m3", "spread", "median", "tmean", "exp", "essmin", "dist")}})
 
@@ -633,11 +633,11 @@ def do_replay(a):
 def plan(a):
     jobs = []
     if a.tier == "quick":
-        nd = 16
+        nd = 12
         jobs += [("defs", "MC_Moments_defs_quick.cfg", nd, i) for i in range(nd)]
-        ns, take = 64, 4
+        ns, take = 64, 2
         jobs += [("seq", "MC_Moments_seq_quick.cfg", ns, (a.seed * take + i) % ns) for i in range(take)]
-        jobs += [("facts", "MC_Moments_facts.cfg", 8, a.seed % 8)]
+        jobs += [("facts", "MC_Moments_facts.cfg", 16, a.seed % 16)]
     else:
         n4, nd, ns = 64, 16, 64
         jobs += [("defs", "MC_Moments_defs_len4.cfg", n4, i) for i in range(n4)]       # longest jobs first
@@ -655,13 +655,14 @@ def pool_map(fn, jobs, nproc):
         return pool.map(fn, jobs, chunksize=1)
 
 
-RULE = ("TLC enumerates every (samples, weights) with samples of length 1-3 over {-3..3} (thorough adds length 4 over "
-        "{-2,-1,0,1,3} and more targets) and weights over {0..3} (not all zero) and emits every definition evaluated on it; "
+RULE = ("TLC enumerates every (samples, weights) with weights over {0..3} (not all zero) and samples of length 1-3 over "
+        "{-2,-1,0,1,3} (quick) / length 1-3 over {-3..3} plus length 4 over {-2,-1,0,1,3}, with more targets (thorough), and "
+        "emits every definition evaluated on it; "
         "a case = one state x one clause, "
         "where a clause is 'definitions' (all real definition functions on list and ndarray inputs, weights=None too on "
         "all-ones states), one (transform, target) of the post-condition table, one index/pair selection of "
         "impose_support/unweighted/collapse, or one emitted sequence of <= 2 transform calls (sequence class: length 3 "
-        "over {-1,0,2} x weights {0,1,3}; quick replays 4 of its 64 shards chosen by the seed, thorough all). Cases are "
+        "over {-1,0,2} x weights {0,1,3}; quick replays 2 of its 64 shards chosen by the seed, thorough all). Cases are "
         "distinct by construction (TLC emits each state once, each clause is enumerated once per state). Non-trivial: "
         "definitions on a state with non-zero variance; a transform whose target differs from the current value; a "
         "selection that removes non-zero weight; a sequence of two calls")
@@ -711,7 +712,7 @@ def explore(ck, a, quiet=False):
     ck.exhaustive = a.tier == "thorough"
     ck.extra["clauses"] = {k: {"cases": v[0], "nontrivial": v[1]} for k, v in sorted(clauses.items())}
     ck.extra["tolerance"] = "abs 1e-12 + rel 1e-9 against the exact rational"
-    ck.extra["sequence_shards_replayed"] = "all" if a.tier == "thorough" else "4 of 64 (by seed)"
+    ck.extra["sequence_shards_replayed"] = "all" if a.tier == "thorough" else "2 of 64 (by seed)"
     ck.assumptions = [
         "TLC and the transcription of the textbook definitions into Moments.tla (rationals <<num,den>>; roots compared in squared/cubed form)",
         "the exact measuring instruments of the harness (mean, central moments, spread, total, product, median, MAD, trimmed and "
@@ -870,7 +871,6 @@ def selftest(a):
         for k, v in orig.items():
             setattr(mm, k, v)
         md.Lnorm = orig_L
-        import importlib
         md.hamming = HAMMING
         CORRUPT["on"] = False
         new = {k: v for k, v in viol.items() if v > base.get(k, 0)}
@@ -882,48 +882,19 @@ def selftest(a):
 HAMMING = None
 
 
-def apply_proposed_fixes():
-    """development aid (--with-proposed-fixes): the repairs proposed for the genuine defects this check found,
-    monkey-patched in this process only, to show that the check is quiet once they are in.  Never the evidence."""
-    import mystic.tools as tools
-    orig = tools.connected
-
-    def connected(pairs):
-        collapse = orig(pairs)
-        for k, v in collapse.items():
-            v.discard(k)              # proposed: a member is never connected to itself ({(i,j),(j,i)} double-counted w[i])
-        return collapse
-    tools.connected = connected
-
-
 def main():
     global HAMMING
-    proposed = "--with-proposed-fixes" in sys.argv
-    if proposed:
-        sys.argv.remove("--with-proposed-fixes")
     a = tier_seed()
     assert_repo()
     import mystic.math.measures  # noqa: F401  (imported before forking so every worker shares it)
     import mystic.math.distance as md
     HAMMING = md.hamming
-    if proposed:
-        apply_proposed_fixes()
-        print("NOTE: --with-proposed-fixes: mystic is patched in memory; this run is not evidence about the unchanged tree")
     if a.selftest:
         return selftest(a)
     if a.replay:
         return do_replay(a)
     ck = new_check(a)
     explore(ck, a)
-    if proposed:                      # keep the evidence file of the last real run
-        evp = os.path.join(os.path.dirname(os.path.dirname(os.path.abspath(__file__))), "evidence", "C18.json")
-        old = open(evp, "rb").read() if os.path.exists(evp) else None
-        rc = ck.finish()
-        if old is None:
-            os.remove(evp)
-        else:
-            open(evp, "wb").write(old)
-        return rc
     return ck.finish()
 
 
